@@ -4,7 +4,7 @@ import z3
 from pyvc.state import ObjV, Record, Sym, fresh_name
 from .base import *
 
-REG.ctor_params['Planner'] = {'env': 'env', 'cluster': 'obj:Cluster', 'model': 'obj:Planning', 'delay_model': 'opt:ref:DelayModel'}
+REG.ctor_params['Planner'] = {'env': 'env', 'cluster': 'obj:Cluster', 'model': 'obj:Planning', 'delay_model': 'DelayModel'}
 REG.ctor_params['Buffer'] = {'env': 'env', 'cluster': 'obj:Cluster', 'planner': 'obj:Planner', 'config': 'obj:Config'}
 REG.ctor_params['Scheduler'] = {'env': 'env', 'buffer': 'obj:Buffer', 'cluster': 'obj:Cluster', 'algorithm': 'obj:Scheduling'}
 REG.ctor_params['Telescope'] = {'env': 'env', 'config': 'obj:Config', 'planner': 'obj:Planner', 'scheduler': 'obj:Scheduler'}
@@ -55,3 +55,32 @@ EVENT = z3.Function('mk_event', R, I, I, I, I, I)     # (time, actor, observatio
 
 def event_code(time, actor, obsname, event, resource):
     return EVENT(time, z3.IntVal(STRINGS.intern(actor)), obsname, z3.IntVal(STRINGS.intern(event)), z3.IntVal(STRINGS.intern(resource)))
+
+
+REG.field_types.update({'Monitor.df': 'any', 'Monitor.events': 'any', 'Planner.delay_model': 'DelayModel'})
+
+
+def sim_world(eng):
+    """the Simulation object as Simulation.__init__ wires it (its file / HDF5 handling is not modelled)"""
+    from pyvc.state import Opaque
+    from pyvc.interp import ENV
+    d = world(eng)
+    sim = ObjV('Simulation', {'env': ENV, 'cluster': d['cluster'], 'planner': d['planner'], 'buffer': d['buffer'],
+                              'scheduler': d['scheduler'], 'instrument': d['telescope'],
+                              'running': eng.fresh_of_type('bool', 'sim.running'), 'to_file': False, '_hdf5_store': None,
+                              '_cfg_path': Opaque('path'), '_cfg': Opaque('config')}, 'simulation')
+    mon = ObjV('Monitor', {'simulation': sim, 'env': ENV, 'sim_timestamp': Opaque('timestamp'),
+                           'df': eng.fresh_of_type('any', 'monitor.df'), 'events': eng.fresh_of_type('any', 'monitor.events')}, 'monitor')
+    sim.fields['monitor'] = mon
+    d['simulation'] = sim
+    d['monitor'] = mon
+    return d
+
+
+def sim_world_of(which):
+    def w(eng):
+        d = sim_world(eng)
+        r = dict(d)
+        r['self'] = d[which]
+        return r
+    return w
